@@ -313,6 +313,8 @@ class Check(object):
             for c in w_.ex.called:
                 if c in w_.prog.functions:
                     self.functions.add(c)
+        for u_, e_ in build.SKIPPED_UNITS:
+            self.notes.append('unit %s was not lowered to IR and is not part of this run: %s' % (u_, e_[:300]))
         props = [ob for ob in self.obs if ob.kind in ('prop', 'lemma')]
         wit = [ob for ob in self.obs if ob.kind == 'witness']
         discharged = [ob for ob in props if ob.status == 'discharged']
